@@ -197,6 +197,12 @@ broadcast use {crate::iter_items_array, crate::iter_items_vec};
             len <= slice@.len() ==> r is Ok && r->Ok_0.0@ =~= slice@.take(slice@.len() - len) && r->Ok_0.1@ =~= slice@.skip(slice@.len() - len),
             len > slice@.len() ==> r is Err""", props=('C05', 'C08')))
     st.impl('impl core::ops::Deref for Stack', [('type', 'Target'), F('deref', ensures='r@ == self@', props=('C05',))])
+    st.spec('''impl vstd::std_specs::convert::TryFromSpecImpl<Vec<Word>> for Stack {
+    open spec fn obeys_try_from_spec() -> bool { false }
+    open spec fn try_from_spec(v: Vec<Word>) -> Result<Self, Self::Error> { Err(StackError::Overflow) } }
+''')
+    st.impl('impl TryFrom<Vec<Word>> for Stack', [('type', 'Error'),
+            F('try_from', ensures='vec@.len() <= 4096 ==> r is Ok && r->Ok_0@ == vec@ && stack_wf(r->Ok_0@), vec@.len() > 4096 ==> r is Err', props=('C05',))])
 
     # ------------------------------------------------------------------ essential-asm op enums (macro-expanded text)
     am = u.module('essential_asm', file=asm_expanded, uses='pub use crate::essential_types::Word; use crate::essential_types;')
